@@ -39,7 +39,7 @@ GmeanPow(x) == Prod(x)                       \* gmean^N
 ColStats(x, wide) ==
   [mean |-> Mean(x), median |-> Median(x), modes |-> Modes(x), iqr |-> Iqr(x), rcv |-> Rcv(x),
    var |-> IF wide THEN <<>> ELSE Var(x), cv2 |-> IF wide THEN <<>> ELSE Cv2(x),
-   gpow |-> IF wide THEN 0 ELSE GmeanPow(x), n |-> Len(x)]
+   gpow |-> IF wide \/ (\E i \in 1..Len(x) : x[i] <= 0) THEN 0 ELSE GmeanPow(x), n |-> Len(x)]
 
 (* channel argument forms for a C-column sample: which columns, in which order,   *)
 (* and whether the result is a scalar (scalar channel) or a vector                 *)
